@@ -403,6 +403,23 @@ def float_idioms(t):
                         up = r.args[1]
                         if up.op == 'fadd' and ((up.args[0] is f and is_c(up.args[1], 1.0)) or (up.args[1] is f and is_c(up.args[0], 1.0))):
                             return tm.fn('round', (x,), y.w)
+                if neg.op == 'fneg' and neg.args[0] is r and r.op == 'fadd' and len(r.args) == 2:
+                    # the same with the increment written as  f + (cond ? 1 : 0)  (f >= +0, so f + 0 is f exactly)
+                    for f, inc in ((r.args[0], r.args[1]), (r.args[1], r.args[0])):
+                        if floor_of(f) is not ax:
+                            continue
+                        cnd = None
+                        if inc.op == 'uitofp':
+                            u = inc.args[0]
+                            while u.op == 'concat' and all(q.op == 'const' and q.args[0] == 0 for q in u.args[1:]):
+                                u = u.args[0]
+                            if u.w == 1:
+                                cnd = u
+                        elif inc.op == 'select' and is_c(inc.args[1], 1.0) and is_c(inc.args[2], 0.0):
+                            cnd = inc.args[0]
+                        d = ge_half(cnd) if cnd is not None else None
+                        if d is not None and d.op == 'fsub' and d.args[0] is ax and d.args[1] is f:
+                            return tm.fn('round', (x,), y.w)
         return y
     for x in tm.walk(t):
         if not any(isinstance(a, tm.T) for a in x.args):
